@@ -233,6 +233,16 @@ def _run_one(args):
     import importlib
     mod = importlib.import_module(modname)
     try:
+        # harness self-protection: a generated program may try to build astronomically large strings; with an address-space
+        # limit that ends in MemoryError inside the case (discarded by sqv.hyp) instead of the kernel killing the worker
+        import resource
+        lim = int(os.environ.get('SQV_WORKER_AS_GB', '6')) << 30
+        soft, hard = resource.getrlimit(resource.RLIMIT_AS)
+        if soft == resource.RLIM_INFINITY or soft > lim:
+            resource.setrlimit(resource.RLIMIT_AS, (lim, hard))
+    except (ValueError, OSError, ImportError):
+        pass
+    try:
         st = mod.run_job(job)
         return ('ok', st)
     except HarnessError as e:
@@ -252,13 +262,35 @@ def run_jobs(modname, jobs, nproc=None):
                 raise HarnessError(val)
             total.merge(val)
         return total
+    # a ProcessPoolExecutor (not multiprocessing.Pool): when a worker dies abruptly (segmentation fault, fatal interpreter
+    # error, kill) the pending futures fail with BrokenProcessPool instead of the whole run waiting for ever
+    import concurrent.futures as cf
+    from concurrent.futures.process import BrokenProcessPool
     ctx = mp.get_context('fork')
-    with ctx.Pool(nproc, maxtasksperchild=None) as pool:
-        for kind, val in pool.imap_unordered(_run_one, [(modname, j) for j in jobs], chunksize=1):
+    ex = cf.ProcessPoolExecutor(max_workers=nproc, mp_context=ctx)
+    try:
+        futs = {ex.submit(_run_one, (modname, j)): j for j in jobs}
+        for fut in cf.as_completed(futs):
+            try:
+                kind, val = fut.result()
+            except BrokenProcessPool:
+                unfinished = [repr(j)[:120] for f, j in futs.items() if not f.done() or f.exception() is not None]
+                raise HarnessError('a worker process died abruptly (crash of the interpreter?) while these jobs were running or queued: '
+                                   + '; '.join(unfinished[:20]) + ' - rerun with SQV_INPROC=1 to locate the case')
             if kind != 'ok':
-                pool.terminate()
                 raise HarnessError(val)
             total.merge(val)
+    except BaseException:
+        procs = list((getattr(ex, '_processes', None) or {}).values())
+        ex.shutdown(wait=False, cancel_futures=True)
+        for pr in procs:
+            try:
+                if pr.is_alive():
+                    pr.terminate()
+            except Exception:  # noqa
+                pass
+        raise
+    ex.shutdown(wait=True)
     return total
 
 
